@@ -38,6 +38,7 @@ pub struct IoState {
     pub dropped: Cell<usize>,
     pub close_calls: Cell<usize>,
     pub terminate_calls: Cell<usize>,
+    pub notify_calls: Cell<usize>,
 }
 
 #[derive(Debug, Clone)]
@@ -53,12 +54,16 @@ impl IoRef {
             dropped: Cell::new(0),
             close_calls: Cell::new(0),
             terminate_calls: Cell::new(0),
+            notify_calls: Cell::new(0),
         }))
     }
     pub fn model_finish_shutdown(&self) {
         if self.0.st.get() == 1 {
             self.0.st.set(2);
         }
+    }
+    pub fn notify_dispatcher(&self) {
+        self.0.notify_calls.set(self.0.notify_calls.get() + 1);
     }
     pub fn tag(&self) -> &'static str {
         "MODEL"
@@ -97,5 +102,27 @@ impl IoRef {
             self.0.torn.set(self.0.torn.get() + s.len());
         }
         res
+    }
+}
+
+/// `ntex_io::IoBoxed` as far as the extracted `call_service` uses it
+pub struct IoBoxed(pub IoRef);
+impl IoBoxed {
+    pub fn get_ref(&self) -> IoRef {
+        self.0.clone()
+    }
+    pub fn tag(&self) -> &'static str {
+        "MODEL"
+    }
+    pub fn encode<U>(&self, item: U::Item, codec: &U) -> Result<(), <U as Encoder>::Error>
+    where
+        U: Encoder,
+    {
+        self.0.encode(item, codec)
+    }
+}
+impl AsRef<IoRef> for IoBoxed {
+    fn as_ref(&self) -> &IoRef {
+        &self.0
     }
 }
